@@ -109,7 +109,6 @@ def classify (cfg : Cfg) (p : Program) (_edb : DB) (_want : String) : String :=
   if hasMutualRecursiveScc p then "has_mutual_recursive_scc"
   else if queryRel p != answeredRel p then "last_rule_head_not_last_head"
   else if p.any droppedEquality then "equality_on_computed_variable"
-  else if p.any aggNotLast then "aggregate_not_last_in_head"
   else if lastHeadMultiClauseWithSip cfg p then "last_head_multi_clause_with_sip"
   else if repeatedVarUnderJoinPlanning cfg p then "repeated_var_in_scan_under_join_planning"
   else "unclassified"
